@@ -194,6 +194,11 @@ manifest = {
         {'name': 'x03-counter-api', 'path': 'vcheck X03', 'serves_properties': ['C03', 'C15'], 'kind_free_text':
          'extension engine: spec/CtrApi*.tla — the public counter API above the mapped file: stack counters under every schedule (one Counter per stack, exactly-once), '
          'Read/ReadStack/ReadFile, Open lifecycle, flag counters, countertest; witness schedules replayed on the instrumented code, histories in fresh child processes (spec/README-X03.md, evidence/X03.json)'},
+        {'name': 'x04-worker-pipeline', 'path': 'vcheck X04', 'serves_properties': ['C13', 'C18'], 'kind_free_text':
+         'extension engine: spec/WorkerPipe*.tla — the worker services (copy, merge, chart) as one state machine over the source, upload, merged and chart buckets: '
+         'copy exactness, merge snapshots and idempotence, charts derived from merged snapshots only (stale merges give stale charts), request validation of parseDateRange, '
+         'failing requests change nothing; simulate behaviours replayed into the real handlers with the bucket tree compared after every request, random histories validated by TLC '
+         '(spec/README-X04.md, evidence/X04.json)'},
     ],
     'checks': checks,
     'not_applicable': na,
